@@ -1,18 +1,42 @@
 PROPERTY = dict(
-    claim=False,
-    na_reason='harness for the validity predicates of the Ninja build driver is written (harness/C18/h_ninja.cpp) but not yet brought to a verdict; end-to-end convergence of `llbuild ninja build` over real commands and files is outside this technique in any case',
     level='other',
-    level_text='Reduced scope: the validity predicates of the Ninja build driver (buildCommandIsResultValid, buildInputIsResultValid) for every stored value, command line, generator flag and stat result.',
-    level_note='Trusted: clang-14 -O1 IR of NinjaBuildCommand.cpp, ir2c, CBMC+SAT; stat is an arbitrary environment; the command-line hash is replaced by an injective function.',
-    bounds='1..2 outputs', outside='everything else in NinjaBuildCommand.cpp', stubs='stat, llvm::hash_value(StringRef)', assumptions=[],
-    explanation='kernel-level verdicts only',
+    level_text='Reduced scope, bounded: the decision kernels of the Ninja build driver (lib/Commands/NinjaBuildCommand.cpp) are decided by CBMC over the real code, one engine callback at a time: '
+               '(U1/U2) the validity predicates for every stored value, command line, generator flag and stat result; (U3) start(): explicit and implicit inputs requested with their position as input id, order-only inputs as must-follow; '
+               '(U4) provideValue*/providePriorValue/inputsAvailable: run, bring up to date without running, or skip, for every combination of input value kinds, file records, stored result, command-line hashes, flags and stat results; '
+               '(U5) the queued job: shell invocation, failure/success recording with restat, and the hand-off of depfile-discovered dependencies to the engine.',
+    level_note='Trusted: clang-14 -O1 IR of NinjaBuildCommand.cpp, ir2c (validated per query against the native build of the same IR), CBMC 6.11 + MiniSat/CaDiCaL. '
+               'NOT decided: the end-to-end statement (contents after `llbuild ninja build` equal a clean build for every manifest and edit history) - that is a composition of these kernels with the engine (C01-C06), '
+               'the manifest loader (C17) and the database (C03/C04) over real commands and files, which no bounded sequential query covers.',
+    bounds='1..2 outputs, 0..2 explicit + 0..1 implicit + 0..2 order-only inputs, 1-byte command lines (ideal hash), one depfile dependency of 2 bytes; all 64-bit file-record fields symbolic',
+    outside='manifest loading, the engine, the database, real process execution, response files, console pool, profiling, status output; the unreadable-depfile path; normalize_path (contract stub); simulate mode output',
+    stubs='stat (arbitrary result per path), llvm::hash_value(StringRef) (injective on the strings used), TaskInterface::{request,mustFollow,discoveredDependency,complete,spawn} (recorders; spawn runs the job / completes the process with an arbitrary status), '
+          'BuildContext::{emitError,emitStatus,emitNote,reportMissingInput,incrementFailedCommands}, writeDescription, util::readFileContents (file present), MakefileDepsParser::parse (its contract: one rule, one dependency), Manifest::normalize_path (contract)',
+    assumptions=['input values handed to a command task are single-output values (asserted by the code under test)', 'the depfile exists when the command succeeded'],
+    explanation='Each obligation drives one callback of the real NinjaCommandTask (obtained from the real buildCommand()) from a symbolic state and compares what it tells the engine with the rule the property states: '
+                'order-only inputs only order; a failed, skipped or missing input stops the command and is recorded as skipped; a changed command line or a missing/older output runs it; an unchanged, up-to-date command is not run; '
+                'a failing process is recorded as failed and propagated; every depfile path is registered as a discovered dependency.',
 )
 COMMON = dict(harness='C18/h_ninja.cpp', entry='harness_ninja', cxxflags=['-I/repo/lib/Commands', '-I/repo/lib'], models=['engine'],
               tus=['lib/Basic/FileInfo.cpp', 'lib/Basic/PlatformUtility.cpp'],
-              stubs=['^stat$=vf_stat', '^_ZN4llvm10hash_valueENS_9StringRefE$=stub_hash_value_sr'],
+              stubs=['^stat$=vf_stat', '^_ZN4llvm10hash_valueENS_9StringRefE$=stub_hash_value_sr'], unwindset='memcmp.0:60,G_stub_complete.0:270',
               noinline=['buildCommandIsResultValid', 'buildInputIsResultValid'], expect_functions=['IsResultValid'],
               stub_virtual=['.'], allow_external=['^_ZTV'], assert_external=['.'], unwind=8, copy_unwind=130, timeout=600, cbmc_flags=['--object-bits', '10'])
 OBLIGATIONS = [
     dict(COMMON, name='U1.commandValid', params_quick=[{'VF_CASE': 0, 'VF_K': k, 'VF_KIND': kd} for k in (1, 2) for kd in (0, 1, 2)]),
-    dict(COMMON, name='U2.inputValid', params_quick=[{'VF_CASE': 1, 'VF_K': 1, 'VF_KIND': kd} for kd in (0, 1)], unwindset='memcmp.0:60'),
+    dict(COMMON, name='U2.inputValid', params_quick=[{'VF_CASE': 1, 'VF_K': 1, 'VF_KIND': kd} for kd in (0, 1)]),
+]
+TI = '^_ZN7llbuild4core13TaskInterface'
+TASK = dict(COMMON, allow_external=['^_ZTV', '2IDE$', '^__libc_single_threaded$', '^_ZSt15__once_callable$', '^_ZSt11__once_call$'], noinline=['buildCommand'], expect_functions=['NinjaCommandTask'], stub_virtual=['^(?!.*NinjaCommandTask).'],
+            stubs=COMMON['stubs'] + [TI + '7requestERKNS0_7KeyTypeEm$=stub_request', TI + '10mustFollowERKNS0_7KeyTypeE$=stub_mustFollow', TI + '20discoveredDependencyERKNS0_7KeyTypeE$=stub_discovered',
+                                     TI + '8completeEOSt6vectorIhSaIhEEb$=stub_complete', TI + '5spawnEONS_5basic8QueueJobENS2_16QueueJobPriorityE$=stub_spawn_job',
+                                     'BuildContext18reportMissingInputEPKN7llbuild5ninja4NodeE$=stub_reportMissingInput', 'BuildContext23incrementFailedCommandsEv$=stub_incrementFailed', 'BuildContext9emitErrorEPKcz$=stub_emitError', 'BuildContext10emitStatusEPKcz$=stub_emitStatus', 'BuildContext8emitNoteEPKcz$=stub_emitStatus2', 'NinjaCommandTask16writeDescriptionE.*$=stub_writeDescription'])
+JOB = dict(TASK, tus=COMMON['tus'] + ['lib/Core/MakefileDepsParser.cpp'], stubs=TASK['stubs'] + [TI + '5spawnEPNS_5basic15QueueJobContextE.*ProcessDelegateE$=stub_spawn_proc', '^_ZN7llbuild8commands4util16readFileContentsEN4llvm9StringRefE$=stub_readFileContents',
+                                       '^_ZN7llbuild4core18MakefileDepsParser5parseEv$=stub_parse', 'Manifest14normalize_pathE.*$=stub_normalize_path'],
+           noop_virtual=['HBufD[012]Ev$', 'HQCtxD[012]Ev$'], stub_virtual=['^(?!.*(NinjaCommandTask|HBuf|HQCtx)).'])
+OBLIGATIONS += [
+    dict(JOB, name='U5.job', params_quick=[{'VF_CASE': 4, 'VF_K': k, 'VF_DEPS': d} for (k, d) in ((1, 0), (2, 0), (1, 1))], params_thorough=[{'VF_CASE': 4, 'VF_K': k, 'VF_DEPS': d} for k in (1, 2) for d in (0, 1)]),
+    dict(TASK, name='U3.start', params_quick=[{'VF_CASE': 2, 'VF_E': e, 'VF_I': i, 'VF_O': o} for (e, i, o) in ((1, 0, 0), (1, 1, 1), (0, 0, 1), (2, 1, 0), (1, 0, 2))],
+         params_thorough=[{'VF_CASE': 2, 'VF_E': e, 'VF_I': i, 'VF_O': o} for e in (0, 1, 2) for i in (0, 1) for o in (0, 1, 2) if 0 < e + i + o <= 4]),
+    dict(TASK, name='U4.decision', params_quick=[{'VF_CASE': 3, 'VF_E': e, 'VF_K': k, 'VF_DEPS': d} for (e, k, d) in ((1, 1, 0), (2, 1, 0), (1, 2, 0), (1, 1, 1))],
+         params_thorough=[{'VF_CASE': 3, 'VF_E': e, 'VF_K': k, 'VF_DEPS': d} for e in (1, 2) for k in (1, 2) for d in (0, 1)]),
 ]
